@@ -760,6 +760,7 @@ def rule_call_semantics(ctx, ix):
     text = "y(i) = A(i,j) * x(j)"
     bad_cases = []
     self_, tensors, parts, formats = scenario(text)
+    self_0 = self_
     bad_cases.append(("non-Tensor argument", {**tensors, "x": S.Obj("Other")}, (), "TypeError"))
     t = S.make_tensor("x", (S.DENSE, S.DENSE), (0, 1)); t.attrs["cffi_tensor"] = S.Obj("cffi")
     bad_cases.append(("argument of the wrong order", {**tensors, "x": t}, (), "ValueError"))
@@ -772,7 +773,25 @@ def rule_call_semantics(ctx, ix):
     bad_cases.append(("missing argument", {"A": tensors["A"]}, (), "TypeError"))
     bad_cases.append(("extra argument", {**tensors, "z": tensors["x"]}, (), "TypeError"))
     bad_cases.append(("positional argument", {"x": tensors["x"]}, (tensors["A"],), "TypeError"))
-    for label, kwargs, args, want in bad_cases:
+    # every parameter of every scenario assignment, scalars included: a tensor of another order, other modes or another
+    # ordering must be refused
+    for text2 in ("y(i) = a() * x(i)", "s() = u(i) * c() * v(i)", "A(i,j) = B(i,j) + C(j,i)"):
+        self2, tensors2, _parts2, _formats2 = scenario(text2)
+        for pname, tgood in tensors2.items():
+            o = tgood.attrs["order"]
+            variants = [("one more dimension", (S.DENSE,) * (o + 1), tuple(range(o + 1)))]
+            if o >= 1:
+                variants.append(("one dimension fewer", (S.DENSE,) * (o - 1), tuple(range(o - 1))))
+                variants.append(("compressed modes", (S.COMPRESSED,) * o, tuple(range(o))))
+            if o >= 2:
+                variants.append(("reversed ordering", (S.DENSE,) * o, tuple(reversed(range(o)))))
+            for what, modes_, ord_ in variants:
+                tb = S.make_tensor(pname, modes_, ord_)
+                tb.attrs["cffi_tensor"] = S.Obj("cffi")
+                bad_cases.append((f"{text2}: parameter {pname} given a tensor with {what}", {**tensors2, pname: tb}, (), "ValueError", self2))
+    for case in bad_cases:
+        label, kwargs, args, want = case[:4]
+        self_ = case[4] if len(case) > 4 else self_0
         problems = []
         for assume, (kind, val) in S.explore(fn, [self_, *args], kwargs, globals_=MG):
             if kind == "kernel":
